@@ -141,7 +141,7 @@ fn index_list<Data: GarnishData>(
     list: Data::Size,
     index: Data::Number,
 ) -> Result<Option<Data::Size>, RuntimeError<Data::Error>> {
-    if index < Data::Number::zero() {
+    if index < Data::Number::zero() || index >= <Data as GarnishData>::DataFactory::size_to_number(this.get_list_len(list.clone())?) {
         Ok(None)
     } else {
         match this.get_list_item(list, index)? {
